@@ -161,13 +161,15 @@ Sane(k) ==
      \* corrupted outcomes are rejected, each by the clause that speaks about it
      /\ judged # {} => "C19.meaning" \in FClauses(in, [good EXCEPT !.s1.F = Corrupt(@, MinOfSet(judged), Other)])
      /\ "C19.meaning" \in FClauses(in, [good EXCEPT !.f_ok = FALSE])
-     /\ "C19.ok" \in FClauses(in, [Ref(in, FALSE) EXCEPT !.same = FALSE])
-     /\ "C19.others" \in FClauses(in, [good EXCEPT !.s3.K = Corrupt(@, n1, VInt(99))])
-     /\ "C19.usable" \in FClauses(in, [good EXCEPT !.s3.K = Corrupt(@, n1, VInt(99))])
-     /\ "C19.loc" \in FClauses(in, [good EXCEPT !.s2.G = Corrupt(@, 1, Err)])
-     /\ "C19.loc" \in FClauses(in, [good EXCEPT !.elsewhere = 1])
-     /\ "C19.usable" \in FClauses(in, [good EXCEPT !.add_ok = FALSE])
-     /\ "C19.usable" \in FClauses(in, [good EXCEPT !.s4.X = Corrupt(@, 1, Err)])
+     \* (the clauses that do not look at the tree: on the first trees only)
+     /\ k > 8 \/
+        /\ "C19.ok" \in FClauses(in, [Ref(in, FALSE) EXCEPT !.same = FALSE])
+        /\ "C19.others" \in FClauses(in, [good EXCEPT !.s3.K = Corrupt(@, n1, VInt(99))])
+        /\ "C19.usable" \in FClauses(in, [good EXCEPT !.s3.K = Corrupt(@, n1, VInt(99))])
+        /\ "C19.loc" \in FClauses(in, [good EXCEPT !.s2.G = Corrupt(@, 1, Err)])
+        /\ "C19.loc" \in FClauses(in, [good EXCEPT !.elsewhere = 1])
+        /\ "C19.usable" \in FClauses(in, [good EXCEPT !.add_ok = FALSE])
+        /\ "C19.usable" \in FClauses(in, [good EXCEPT !.s4.X = Corrupt(@, 1, Err)])
 Init == lane = 0 /\ sane = TRUE
 Next == /\ IF lane = 0 THEN lane' \in 1..(IF N < Lanes THEN N ELSE Lanes)
                        ELSE lane + Lanes <= N /\ lane' = lane + Lanes
